@@ -1039,3 +1039,6 @@ def m_size_of(I, st, args, c, dest, target, span):
 def m_into_iter_identity(I, st, args, c, dest, target, span):
     # `impl<I: Iterator> IntoIterator for I` is the identity; by_ref returns the same `&mut I`
     return args[0]
+
+
+from . import ppmodels as _ppmodels      # noqa: E402,F401  (sequence / string / sink models registered in front of the ones above)
